@@ -127,7 +127,8 @@ func ValueOf(query *Query, current Map, any any) (any, error) {
 						return ExecReader(current, name[len(query.table)+1:])
 					}
 				case len(query.alias) > 0:
-					if row, ok := current[query.alias].(Map); ok && len(current) <= 2 {
+					// (inside EXISTS the row also carries the outer row's columns)
+					if row, ok := current[query.alias].(Map); ok {
 						return ExecReader(row, name)
 					}
 				}
